@@ -135,7 +135,7 @@ CHECKS.update({
              "shared store end, after ANY schedule, in the state of their own sequential execution; a copy equals its source "
              "field by field and owns new arrays. Tied dynamically: bit-for-bit snapshots around every query x option "
              "combination, aliasing tags vs np.shares_memory, threads vs sequential results, vars(copy) == vars(original).",
-        note=TB + "Aliasing and threads are properties of the CPython runtime: observed, not proved.",
+        note=TB + "F55 fixed (get(resample=<array>) returned the caller's array; the model step timeCopyOfArg follows the repair). Aliasing and threads are properties of the CPython runtime: observed, not proved.",
         ref="4/C10"),
     "C11": dict(
         technique="Lean 4 proof (pipeline model with abstract stages over any ordered field; concrete model of the smoothing and Tukey-taper stages) + exact Rat correspondence with tag-function stages + Float correspondence of smooth / taper / get + float search",
@@ -229,7 +229,10 @@ CHECKS.update({
              "flight). Tied on fixed corner histories + seeded random histories generated against the live queue (thorough: the canonical "
              "completion patterns of two overlapping requests x variants + sampled permutations): rows, tick marks, status, queued "
              "workers with captured arguments, per-view series and settings decoded from the drawn numbers against qats.app.funcs "
-             "called directly, statistics-table cells, Gumbel tabs.",
+             "called directly, statistics-table cells, Gumbel tabs. Application settings: the settings dialog (check box + clamping spin "
+             "boxes, OK / Cancel) changes exactly what the user edited and every session keeps the settings inside the widgets' ranges "
+             "(Qats.GuiSettings), compared with the window after every dialog; the expected selection and settings of a request come "
+             "from a harness-side record of the user's actions (ticks under a list filter, dropped files, failed imports).",
         note=TB + "Real thread timing, Qt signal delivery and pixel rendering are not modelled (queue pool, synchronous signals, FigureCanvas.draw stubbed). Library computations are opaque in the model; numbers are compared by the harness. K1, K2, K4 are known findings.",
         ref="4/C19"),
 })
